@@ -237,7 +237,7 @@ theorem no_lost_wakeup_after_close (cap W : Nat) (ls : List Label) :
 (after the consumer read `source_closed = false`), and the consumer's next step is enabled -/
 example :
     let s := run (init 1 64) [.cons true, .cons false, .cons false, .cons false, .cons false, .cons false,
-      .cons false, .prod 0 (some .dropSrc), .prod 0 none, .prod 0 none, .prod 0 none]
+      .cons false, .cons false, .prod 0 (some .dropSrc), .prod 0 none, .prod 0 none, .prod 0 none]
     s.closed = true ∧ s.pp 0 = .gone ∧ s.cp = .await1 0 ∧ blocked s (.cons false) = false := by
   decide
 
@@ -278,7 +278,7 @@ theorem multi_producer_unsafe_without_lock_witness :
 /-- The schedule of the second finding: the consumer finds the queue empty, then the producer pushes
 its last sample and drops the source, then the consumer reads `source_closed`. -/
 def lateCloseSchedule : List Label :=
-  [.cons true, .cons false, .cons false, .cons false, .cons false,                    -- recv: … pop → None
+  [.cons true, .cons false, .cons false, .cons false, .cons false, .cons false,       -- recv: … pop → None
    .prod 0 (some (.send [1])), .prod 0 none, .prod 0 none, .prod 0 none, .prod 0 none,
    .prod 0 none, .prod 0 none, .prod 0 none,                                            -- send completes
    .prod 0 (some .dropSrc), .prod 0 none, .prod 0 none, .prod 0 none,                   -- source dropped
@@ -299,7 +299,7 @@ theorem eos_before_drained_witness :
 /-- The schedule of the third finding: the source is dropped after the consumer has read
 `source_closed = false` but before it creates its `Notified`. -/
 def lostWakeupSchedule : List Label :=
-  [.cons true, .cons false, .cons false, .cons false, .cons false, .cons false,        -- … closed? no → unlock
+  [.cons true, .cons false, .cons false, .cons false, .cons false, .cons false, .cons false,  -- … closed? no → unlock
    .prod 0 (some .dropSrc), .prod 0 none, .prod 0 none, .prod 0 none,                   -- drop: closed, notify_waiters
    .cons false]                                                                         -- notified().await
 
@@ -316,7 +316,7 @@ theorem lost_wakeup_witness :
 /-- on the current code the same two schedules end correctly: the late sample is delivered before
 end-of-stream, and the closing `notify_waiters` reaches the `Notified` created first -/
 example :
-    let s := run (init 1 64) ([.cons true, .cons false, .cons false, .cons false, .cons false, .cons false, .cons false] ++
+    let s := run (init 1 64) ([.cons true, .cons false, .cons false, .cons false, .cons false, .cons false, .cons false, .cons false] ++
       [.prod 0 (some .dropSrc), .prod 0 none, .prod 0 none, .prod 0 none] ++
       [.cons false, .cons false, .cons false, .cons false])
     s.cres = [CRes.eos] ∧ blocked s (.cons false) = false := by
